@@ -1,7 +1,7 @@
 (** Property C08 — the theorems the check counts as obligations.  Nothing but
     statements closed by [exact] and [Print Assumptions]. *)
 From HS Require Import Base.Prelude Base.PyLib C08.Model C08.Policies C08.PolicyThms C08.Pipeline C08.IndModel C08.IndThms
-  Gen.QueuePolicyGen C08.GenTie Gen.ConcurrencyGen C08.ConcTie.
+  Gen.QueuePolicyGen C08.GenTie Gen.ConcurrencyGen C08.ConcTie Gen.DeadlineGen C08.DeadlineTie.
 Local Open Scope Z_scope.
 
 (** Conservation, every policy, every worker kind, EVERY schedule (any pending
@@ -321,3 +321,28 @@ Theorem c08_code_acquire_respects_limit : forall c w,
   (1 <= w -> (snd (code_cm_step c (CHasCap w)) = 1 <-> r = 1)).
 Proof. exact code_acquire_respects_limit. Qed.
 Print Assumptions c08_code_acquire_respects_limit.
+
+(* ---------------- code level: queue_policies/deadline_queue.py as regenerated by py2coq ---------------- *)
+
+(** DeadlineQueue.push / pop / is_empty / __len__, regenerated from the source on every run
+    (Gen/DeadlineGen.v; pop's `while heap: entry = heappop(heap)` drain loop with continue / return is a
+    fold over the current heap), on the code object of a model state: push is the model's push
+    (_get_deadline(item) = the item's deadline), pop at clock t drops exactly what the model's [dl_pop]
+    drops, returns what it returns, and leaves the model's heap and counters (enqueued, dequeued,
+    expired, rejected) — so [c08_deadline_order], conservation and capacity above speak about the code. *)
+Theorem c08_code_deadline_refines_model : forall cap ctr h st it balk t,
+  (let '(s', ok) := pol_push balk it (PDead cap ctr h st) in
+   exists ctr' h' st', s' = PDead cap ctr' h' st' /\
+   DeadlineQueue_push (dq_obj cap ctr h st) (iid it) (idl it) = (dq_obj cap ctr' h' st', ok))
+  /\ (let '(s', r, ex) := pol_pop t (PDead cap ctr h st) in
+      exists h' st', s' = PDead cap ctr h' st' /\
+      DeadlineQueue_pop (dq_obj cap ctr h st) (Some t) = (dq_obj cap ctr h' st', option_map iid r))
+  /\ (DeadlineQueue___len__ (dq_obj cap ctr h st) = pol_len (PDead cap ctr h st)
+      /\ DeadlineQueue_is_empty (dq_obj cap ctr h st) = (pol_len (PDead cap ctr h st) =? 0))
+  /\ (forall k o e, _DeadlineEntry___lt__ (denc (k, o, it)) (denc e) = entry_ltb k o e).
+Proof.
+  intros cap ctr h st it balk t.
+  exact (conj (tie_dq_push cap ctr h st it balk) (conj (tie_dq_pop cap ctr h st t) (conj (tie_dq_reads cap ctr h st)
+        (fun k o e => tie_dentry_lt k o it e)))).
+Qed.
+Print Assumptions c08_code_deadline_refines_model.
